@@ -13,13 +13,13 @@ CLAUSES = {
     "C06": {"toc_sync", "no_empty_bookkeeping_groups", "meta_follows_reference", "uuids_stable", "index_eq_rebuild",
             "failed_op_changes_nothing", "schema_record_complete", "state_observable", "container_identity_stable"},
     "C07": {"query_exact", "get_returns_stored", "get_found_iff_matches", "ancestor_view_valid", "ok_matches_reference",
-            "state_observable"},
+            "state_observable", "parent_path_is_class_chain"},
     "C08": {"user_view_is_plain_tree", "listings_consistent", "reserved_rejected_without_effect",
             "no_unexpected_reserved_nodes", "tree_is_apply_of_reference", "state_observable"},
     "C09": {"ok_matches_reference", "tree_is_apply_of_reference", "meta_follows_reference", "drivers_agree",
             "query_exact", "operation_terminates", "user_view_is_plain_tree", "state_observable", "container_identity_stable"},
     "C20": {"self_describing", "embedded_jsonschema_current", "objects_validate_against_embedded_schema",
-            "schema_record_complete", "index_eq_rebuild", "state_observable"},
+            "schema_record_complete", "index_eq_rebuild", "state_observable", "parent_path_is_class_chain"},
 }
 MODEL_INVS = {
     "C06": ["TocSyncInv", "IndexEqRebuild"],
